@@ -34,6 +34,13 @@ extern "C" int vf_run_case(const uint8_t * data, size_t size)
 
    // (3) parse back, walk through the getters
    Message m2; {const status_t r = m2.UnflattenFromBytes((const uint8 *)got.data(), fs); if (r.IsError()) vf::Fail("the library rejects its own bytes: %s, for %s", r(), Summary(mod).c_str());}
+   // the same bytes parsed into a Message object that is already in use (a re-used receive buffer: other what-code, other fields, some with the same names): nothing of the old content may survive
+   {
+      Message used(0x75736564); (void) used.AddString("left over", "from the previous Message"); (void) used.AddInt32("", 7); (void) used.AddInt64("caf\xc3\xa9", 1); for (size_t i=0; (i<mod.f.size())&&(i<3); i++) (void) used.AddFloat(mod.f[i].name.c_str(), 1.5f);
+      const status_t r = used.UnflattenFromBytes((const uint8 *)got.data(), fs); if (r.IsError()) vf::Fail("the library rejects its own bytes when parsing into a Message that is already in use: %s", r());
+      Walk(used, mod, true, "parsed into a Message already in use");
+      if (used.FlattenedSize() != fs) vf::Fail("a Message parsed into an object already in use reports %u bytes, the original %u", used.FlattenedSize(), fs);
+   }
    Walk(m2, mod, true, "parsed");
 
    // (4) re-serialisation reproduces the bytes
